@@ -1,4 +1,4 @@
-import BqVerif.Proofs.ServerBubble
+import BqVerif.Proofs.ServerObs
 /-!
 # C13 — task failures reach their client; no client request takes the server down
 
@@ -101,66 +101,84 @@ theorem C13_foreign_like_unknown (a : Abs) (A : Conn) (t : Tid)
 /-! ## errors -/
 
 /-- an ERROR tagged with mailbox id `m` changes no table; it is forwarded to exactly the owner
-of the task `m` names iff the server still knows that task (its owner is connected), and to
-nobody otherwise; it is never turned into a RESULT -/
+of the compilation `m` names iff that compilation is still open (its mailbox exists: RUNNING
+or DONE), and to nobody otherwise; it is never turned into a RESULT -/
 theorem C13_error_routed {s : Srv} (h : Inv s) (m : Mid) (msg : Nat) :
     ∃ s', step s (.error m msg) = .ok s' ∧
       s'.clients = s.clients ∧ s'.tasks = s.tasks ∧ s'.m2t = s.m2t ∧ s'.boxes = s.boxes ∧
       s'.running = s.running ∧
-      (match get? s.m2t m with
+      (match get? s.boxes m with
        | none => s'.out = []
-       | some t => ∃ c, get? s.tasks t = some (m, c) ∧ s'.out = [.errorTo c msg]) ∧
+       | some _ => ∃ t c ts, get? s.m2t m = some t ∧ get? s.tasks t = some (m, c) ∧
+           get? s.clients c = some ts ∧ t ∈ ts ∧ s'.out = [.errorTo c msg]) ∧
       ∀ c v, Out.resultTo c v ∉ s'.out := by
   obtain ⟨s', e1, a1, a2, a3, a4, _, a6, _, a8⟩ := step_error_eq h m msg
   refine ⟨s', e1, a1, a2, a3, a4, a6, a8, ?_⟩
   intro c v hm
-  cases hx : get? s.m2t m with
+  cases hx : get? s.boxes m with
   | none => rw [hx] at a8; simp only at a8; rw [a8] at hm; cases hm
-  | some t =>
-    rw [hx] at a8; obtain ⟨c', _, ho⟩ := a8
+  | some b =>
+    rw [hx] at a8; obtain ⟨t, c', ts, _, _, _, _, ho⟩ := a8
     rw [ho] at hm; simp at hm
 
-/-
-Full-strength reading of DESIGN.md ("discarded iff the task was cancelled") - FALSE of the
-code: `handle_error` only looks at `mailbox_to_task_dict`, which keeps cancelled and
-delivered tasks until their client disconnects.
+/-- (full strength after fix 3a23d26) the ERROR of a compilation that is cancelled, delivered,
+unknown, or whose client is gone is discarded: nothing is sent, nothing changes -/
+theorem C13_error_discarded_when_closed {s : Srv} (h : Inv s) (m : Mid) (msg : Nat)
+    (hb : get? s.boxes m = none) :
+    ∃ s', step s (.error m msg) = .ok s' ∧ s'.out = [] ∧ s'.clients = s.clients ∧
+      s'.tasks = s.tasks ∧ s'.m2t = s.m2t ∧ s'.boxes = s.boxes := by
+  obtain ⟨s', e1, a1, a2, a3, a4, _, _, _, a8⟩ := step_error_eq h m msg
+  rw [hb] at a8
+  exact ⟨s', e1, a8, a1, a2, a3, a4⟩
 
-theorem C13_error_discarded_when_closed (h : Reach s) (hm : get? s.m2t m = some t)
-    (hb : get? s.boxes m = none) : ∃ s', step s (.error m msg) = .ok s' ∧ s'.out = []
--/
+/-- the same on the automaton, hence - with `C13_history_refines` - for every history: an ERROR
+is answered with a message to the owner iff the task is RUNNING or DONE -/
+theorem C13_error_spec (a : Abs) (t : Tid) (msg : Nat) :
+    (spec a (.error (some t) msg)).1 = a ∧
+    (spec a (.error (some t) msg)).2 =
+      (match a.task t with
+       | .running o _ => [.errorTo o msg]
+       | .done o _ => [.errorTo o msg]
+       | .unknown | .delivered _ | .cancelled _ => []) ∧
+    (spec a (.error none msg)) = (a, []) := by
+  cases hst : a.task t <;> simp [spec, hst]
 
+/-- the history that used to forward a stale ERROR (finding fixed by 3a23d26) -/
 def staleErrorHistory : List Ev := [.connect 0, .submit 0 0, .cancel 0 0, .error 0 5]
 
-/-- witness: after the client cancelled its task the task's ERROR is still forwarded to it
-(replayed on the real handlers by the harness; KNOWN-FINDING stale-error-forwarded) -/
-theorem C13_stale_error_witness :
+/-- regression instance: after the client cancelled its task the task's ERROR is discarded -/
+theorem C13_stale_error_discarded :
     wfHist init staleErrorHistory = true ∧
-    histReplies staleErrorHistory = some [[], [], [.cancelAck 0], [.errorTo 0 5]] := by
+    histReplies staleErrorHistory = some [[], [], [.cancelAck 0], []] := by
   decide
 
-/-- an exception raised by the root task of compilation `m` or by any task it spawned, at
-any depth (`Desc`), on any worker, behind any number `k` of manager levels - unless it is a
-plain RuntimeError of a lineage that was cancelled - arrives at the server as ERROR tagged
-`m`, is sent to exactly the owner `c` of the compilation, and the owner's pending or next
-call raises with the original text, whatever LOG records precede it -/
-theorem C13_error_reaches_owner {s : Srv} (h : Reach s) {m : Mid} {t : Tid} {d : RTask}
-    (hm : get? s.m2t m = some t) (hd : Desc (rootTask m) d)
+/-- an exception raised by the root task of the open compilation `m` or by any task it
+spawned, at any depth (`Desc`), on any worker, behind any number `k` of manager levels - unless
+it is a plain RuntimeError of a lineage that was cancelled - arrives at the server as ERROR
+tagged `m`, is sent to exactly the owner `c` of the compilation, and the owner's pending or
+next call raises with the original text, whatever LOG records precede it (both in the pipe
+before the call starts and after the request was sent) -/
+theorem C13_error_reaches_owner {s : Srv} (h : Reach s) {m : Mid} {b : Box} {d : RTask}
+    (hb : get? s.boxes m = some b) (hd : Desc (rootTask m) d)
     (cancelled : List Addr) (plainRte : Bool)
     (hc : plainRte = false ∨ cancelled.any d.isDescendantOf = false)
     (k : Nat) (msg : Nat) (logs : List Nat) (rest : List CMsg) :
-    ∃ u c s', workerOnException cancelled d plainRte msg = some u ∧
-      get? s.tasks t = some (m, c) ∧
+    ∃ u t c ts s', workerOnException cancelled d plainRte msg = some u ∧
+      get? s.m2t m = some t ∧ get? s.tasks t = some (m, c) ∧
+      get? s.clients c = some ts ∧ t ∈ ts ∧
       step s (throughManagers k u).toEv = .ok s' ∧ s'.out = [.errorTo c msg] ∧
-      recvHandle (logs.map CMsg.log ++ CMsg.error msg :: rest) none = .raised msg := by
+      recvHandle (logs.map CMsg.log ++ CMsg.error msg :: rest) none = .raised msg ∧
+      preDrain (logs.map CMsg.log ++ CMsg.error msg :: rest) = .raised msg := by
   have hw : workerOnException cancelled d plainRte msg = some (.error m msg) := by
     have : d.comp = m := hd.comp
     rcases hc with x | x <;> simp [workerOnException, x, this]
   obtain ⟨s', e1, _, _, _, _, _, _, _, a8⟩ := step_error_eq h.inv m msg
-  rw [hm] at a8
-  obtain ⟨c, h1, ho⟩ := a8
-  refine ⟨_, c, s', hw, h1, ?_, ho, ?_⟩
+  rw [hb] at a8
+  obtain ⟨t, c, ts, hm, h1, hcl, ht, ho⟩ := a8
+  refine ⟨_, t, c, ts, s', hw, hm, h1, hcl, ht, ?_, ho, ?_, ?_⟩
   · rw [throughManagers_id]; exact e1
   · rw [recvHandle_logs]; rfl
+  · rw [preDrain_logs]; rfl
 
 /-- the client's receive loop: LOG records are passed over and do not end the wait; the
 first non-LOG message decides; with only LOGs the call keeps blocking -/
@@ -174,11 +192,72 @@ theorem C13_client_recv (logs : List Nat) :
   · have := recvHandle_logs logs [] none
     simpa [recvHandle] using this
 
-/-- witness of the client-side finding: a LOG record waiting in the pipe when a call starts
-ends that call with AttributeError (→ 'Server connection unexpectedly closed.'), whereas the
-receive loop proper passes LOGs through (`C13_client_recv`) -/
-theorem C13_client_stale_log_witness (x : Nat) (rest : List CMsg) :
-    preDrain (CMsg.log x :: rest) = .attributeError := rfl
+/-- (full strength after fix 131dac7) LOG records pending in the pipe when a call starts never
+make the call fail: its outcome is that of the same call without them; with nothing but LOGs
+pending the request goes out; a pending ERROR still raises with its text -/
+theorem C13_client_predrain (logs : List Nat) :
+    (∀ pending arriving, sendRecv (logs.map CMsg.log ++ pending) arriving = sendRecv pending arriving) ∧
+    preDrain (logs.map CMsg.log) = .clean ∧
+    (∀ arriving, sendRecv (logs.map CMsg.log) arriving = sendRecv [] arriving) ∧
+    (∀ msg rest arriving, sendRecv (logs.map CMsg.log ++ CMsg.error msg :: rest) arriving
+        = .wrapped (some msg)) := by
+  refine ⟨fun p a => ?_, ?_, fun a => ?_, fun msg rest a => ?_⟩
+  · simp [sendRecv, preDrain_logs]
+  · have := preDrain_logs logs []; simpa [preDrain] using this
+  · have := preDrain_logs logs []
+    simp only [List.append_nil] at this
+    simp [sendRecv, this]
+  · simp [sendRecv, preDrain_logs, preDrain]
+
+/-! ## what is really written, and the remaining defects (witnesses; KNOWN-FINDINGs) -/
+
+/-- the messages the outgoing thread really writes are the automaton's replies, except those put
+for a connection the same handler closes; for every request that does not close the requester
+(everything but `disconnect` and a `request` for a non-open id) they are exactly the replies -/
+theorem C13_written_replies {s s' : Srv} {a : Abs} {e : Ev} (h : Inv s) (r : R s a)
+    (hw : wf s e = true) (hs : step s e = .ok s') :
+    writtenReplies s'.out = keepWritten (spec a (absEv s e)).2 ∧
+    (closesConn a (absEv s e) = false → writtenReplies s'.out = (spec a (absEv s e)).2) := by
+  have := (sim_step h r e hw hs).2
+  refine ⟨by simp [writtenReplies, this], fun hc => ?_⟩
+  simp only [writtenReplies, this]
+  exact keepWritten_noClose (spec_noClose a _ hc)
+
+/-
+Full strength (every reply the automaton requires is written) is FALSE for one request kind:
+
+theorem C13_every_reply_written … : writtenReplies s'.out = (spec a (absEv s e)).2
+-/
+
+/-- witness (finding `bad-request-reply-never-written`): the answer ERROR 'Unknown task.' to a
+`request` for a non-open id is put and then the connection is closed by the same handler, so it
+is never written - the client only sees its connection die -/
+theorem C13_bad_request_reply_dropped_witness (a : Abs) (c : Conn) (t : Tid)
+    (h : (a.task t).openFor c = false) :
+    (spec a (.request c t)).2 = [.errorTo c 0, .close c] ∧
+    keepWritten (spec a (.request c t)).2 = [.close c] := by
+  rw [spec_request_notOpen h]
+  simp [keepWritten, Reply.isClose, Reply.conn]
+
+/-- witness (finding `client-error-text-only-in-cause`): for an ERROR reply the caller of
+`status/result/cancel` gets the wrapped exception - its own text is the fixed string
+'Server connection unexpectedly closed.', the original text is only the `__cause__` -/
+theorem C13_client_error_text_witness (msg : Nat) (logs : List Nat) (rest : List CMsg) :
+    sendRecv [] (logs.map CMsg.log ++ CMsg.error msg :: rest) = .wrapped (some msg) := by
+  simp [sendRecv, preDrain, recvHandle_logs, recvHandle]
+
+/-- witness (finding `outgoing-thread-dies:BrokenPipeError`): the exception a send to a vanished
+peer normally raises is not among those `send_outgoing` survives -/
+theorem C13_outgoing_brokenpipe_witness :
+    outgoingSurvives .brokenPipe = false ∧ outgoingSurvives .connectionReset = true := ⟨rfl, rfl⟩
+
+/-- witness (finding `double-disconnect`): `handle_disconnect` for a connection that was already
+removed (the outgoing thread does that on ConnectionResetError, the main thread on the EOF of the
+same connection) is a failing lookup: the run loop shuts the server down -/
+theorem C13_double_disconnect_witness :
+    histFails [.connect 0, .disconnect 0] = false ∧
+    histFails [.connect 0, .disconnect 0, .disconnect 0] = true := by
+  decide
 
 /-! ## non-vacuity -/
 
@@ -211,12 +290,18 @@ example : Inv demo ∧ (Ev.cancel 0 7).client = some 0 ∧ wf demo (.cancel 0 7)
 -- C13_foreign_like_unknown: a foreign running task
 example : ((Abs.setTask absInit 7 (.running 1 false)).task 7).owner ≠ some 0 := by
   simp [Abs.setTask, TaskSt.owner]
--- C13_error_routed: both branches occur
-example : get? demo.m2t 0 = some 7 ∧ get? demo.m2t 1 = none := ⟨rfl, rfl⟩
+-- C13_error_routed / C13_error_discarded_when_closed: both branches occur
+example : get? demo.boxes 0 = some ⟨none, false⟩ ∧ get? demo.boxes 1 = none := ⟨rfl, rfl⟩
+example : Inv demo ∧ get? demo.boxes 1 = none := ⟨demo_reach.inv, rfl⟩
 -- C13_error_reaches_owner: a task two levels below the root task of mailbox 0, one manager
-example : Reach demo ∧ get? demo.m2t 0 = some 7 ∧
+example : Reach demo ∧ get? demo.boxes 0 = some ⟨none, false⟩ ∧
     Desc (rootTask 0) (spawn (spawn (rootTask 0) 3 0 0) 4 1 2) ∧
     (false = false ∨ ([] : List Addr).any (spawn (spawn (rootTask 0) 3 0 0) 4 1 2).isDescendantOf = false) :=
   ⟨demo_reach, rfl, .spawn _ _ _ (.spawn _ _ _ .root), Or.inl rfl⟩
+
+-- C13_written_replies: same hypotheses as C13_refines_task_automaton; a non-closing request
+example : closesConn absInit (.status 0 7) = false := rfl
+-- C13_bad_request_reply_dropped_witness: an unknown id is not open
+example : (absInit.task 5).openFor 0 = false := rfl
 
 end BqVerif.C13
